@@ -1693,6 +1693,14 @@ func (ex *explorer) simple(st *State, in ssa.Instruction) {
 		x := ex.eval(st, in.X)
 		name := fieldName(in.X.Type(), in.Field)
 		f.env[in] = &Term{Op: "faddr", Aux: name, Args: []*Term{x}, Typ: in.Type()}
+		// taking the address of a field of a nil pointer panics: past this point the pointer is not nil
+		if !x.IsConst() && x.Op != "alloc" {
+			if atom, pol := Atom(mkBin("==", x, Nil)); !atom.IsConst() {
+				if _, known := st.facts[atom.Key()]; !known {
+					st.facts[atom.Key()] = !pol
+				}
+			}
+		}
 	case *ssa.Field:
 		x := ex.eval(st, in.X)
 		name := fieldName(in.X.Type(), in.Field)
